@@ -20,6 +20,7 @@ Reset == /\ Is("Reset")
          /\ dAdds' = {} /\ dKeys' = {} /\ pending' = {} /\ opened' = {} /\ closed' = {}
          /\ mode' = "up" /\ trimTodo' = <<>> /\ thr' = [t \in Threads |-> Idle]
          /\ closedChans' = {} /\ resMsgs' = {} /\ nextIdx' = [c \in OutChans |-> 0]
+         /\ chanStatus' = [c \in OutChans |-> "default"]
          /\ ret' = NoRet
          /\ addsCount' = [k \in InKeys |-> 0] /\ respCount' = [k \in InKeys |-> 0]
          /\ snap' = [adds |-> {}, keys |-> {}] /\ fresh' = FALSE
@@ -42,6 +43,8 @@ TNext ==
   \/ Is("AddResMsg") /\ E.outs[1] \in OutKeys /\ AddResMsg(E.outs[1])
   \/ Is("AdvanceIdx") /\ E.c \in OutChans /\ AdvanceIdx(E.c)
   \/ Is("CloseChan") /\ E.c \in (InChans \cup OutChans) /\ CloseChan(E.c)
+  \/ Is("MarkBorked") /\ E.c \in OutChans /\ MarkChan(E.c, "borked")
+  \/ Is("MarkCommitBroadcast") /\ E.c \in OutChans /\ MarkChan(E.c, "commitbc")
   \/ Is("Crash") /\ Crash
   \/ Is("StartClean") /\ StartClean(Ok)
   \/ Is("StartRestore") /\ StartRestore(Ok)
